@@ -291,10 +291,13 @@ pub fn record_geometry(output: &str) {
     let mut r = rng(1010);
     let n = if thorough() { 1500 } else { 220 };
     let kin = robot();
+    let mut last_q0: Joints = [0.0; 6];
     for k in 0..n {
         let pools = pools_for(k, if thorough() { 5 } else { 3 });
         let case = make_case(&mut r, k);
-        let q0: Joints = std::array::from_fn(|_| r.gen_range(-1.0..1.0));
+        // (one case in four stands at the very joint vector of the preceding case: another body, the same joints)
+        let q0: Joints = if k % 4 == 3 { last_q0 } else { std::array::from_fn(|_| r.gen_range(-1.0..1.0)) };
+        last_q0 = q0;
         let tj = table_json(&case.table);
         let has_tool = case.scene.ids.contains(&TOOL);
         let has_base = case.scene.ids.contains(&BASE);
